@@ -237,6 +237,35 @@ def check(run):
                     continue
                 if not ok_value(r):
                     run.violation('%s returns something that is not an Excel value: %r' % (name, r if not isinstance(r, np.ndarray) else r.tolist()), case)
+    # ---- many arguments: the separate path for 32 and more arguments must treat values and errors alike ---------------------------
+    many = [nm for nm in names if arity_ok(fn_of(nm), 34) and nm not in MAX_ARGS]
+    for name in many:
+        f = fn_of(name)
+        for rep in range(3 if quick else 30):
+            k = rnd.randint(32, 40)
+            args = [rnd.choice([1, 2.5, 0, 'abc', '5', True, False]) for _ in range(k)]
+            where = rnd.randrange(k)
+            args[where] = rnd.choice([NA, DIV]) if rnd.random() < 0.7 else arr((1, 2), err=rnd.choice([NA, DIV]))
+            case = {'function': name, 'args': [show(a) for a in args], 'class': 'many-arguments', 'error_at': where}
+            run.count(1, (name, json.dumps(case['args'], default=str)), True, 'many-arguments')
+            try:
+                r = timed(f, args)
+            except Timeout:
+                run.violation('%s does not return within 20 s' % name, case)
+                continue
+            except Exception as ex:
+                run.violation('%s raised %s: %s' % (name, type(ex).__name__, str(ex)[:80]), case)
+                continue
+            r = getattr(r, 'value', r)
+            if r is sh.NONE:
+                continue
+            if not ok_value(r):
+                run.violation('%s returns something that is not an Excel value: %r' % (name, r if not isinstance(r, np.ndarray) else r.tolist()), case)
+            elif not has_err(r) and name not in EXEMPT:
+                run.violation('%s with %d arguments loses the error value of argument %d: result %s' % (name, k, where + 1, show(r) if not isinstance(r, np.ndarray) else show(r)), case)
+            elif name in ('SWITCH', '_XLFN.SWITCH', 'IFS', '_XLFN.IFS') and where == 0 and not has_err(r):
+                run.violation('%s with %d arguments loses the error value of its first argument: result %s' % (name, k, show(r) if not isinstance(r, np.ndarray) else show(r)), case)
+    run.extra['functions_taking_34_arguments'] = len(many)
     # ---- incompatible shapes ---------------------------------------------------------------------------------------------
     for name in rnd.sample(names, 40 if quick else len(names)):
         f = fn_of(name)
